@@ -107,5 +107,15 @@ CHECKS = {
                 "elements, point-wise outwardness for quad4; mask selection and ensure_3d padding on concrete meshes.",
         "note": "validity assumed at the library's dV < 0 test; tolerance 1e-9 for the flux (float Gauss points); hex20/27 not claimed.",
     },
+    "C15": {
+        "category": "model_checking",
+        "text": "The real Step.generate / Job.evaluate / CharacteristicCurve / newtonrhapson code is driven by stub items (fresh symbolic residual per evaluation, recorded events) and a contract-stub solver: "
+                "every convergence pattern of a 3-substep ramp and of a 2-step job is a path; on each path: ramp values applied in order and before the substep's evaluations, each substep starts from the "
+                "previous converged state with its committed state variables, one result per converged substep, nothing after the first failure (which raises and commits nothing), callbacks in order, one "
+                "curve point per result with the boundary displacement / reaction. Ogden-Roxburgh over a symbolic history of three deformation gradients (all orderings of the energies are paths): stored "
+                "maximum is the running maximum, primary loading equals the (abstract) base material. Plasticity from an arbitrary admissible stored state: stress on the updated yield surface after a plastic "
+                "update (1e-9), yield condition after an elastic one, equivalent plastic strain non-decreasing, stored strain/stress are the new ones.",
+        "note": "subdivision independence of real Newton solutions is outside (needs convergence); histories of length 3; Newton limited to one iteration per substep in the protocol harness.",
+    },
 }
 NOT_APPLICABLE = {}
